@@ -29,8 +29,8 @@ typedef Cfg<CAPS_NOGC, false, false> C_nogc;
 template <class S> struct MSet : NogcSetA<S, C_nogc> { explicit MSet(const Program& p) { this->s.reset(new S((size_t)p.knob("max_items", 4), (size_t)p.knob("load_factor", 1))); } };
 template <class S> struct MMap : NogcMapA<S, C_nogc> { explicit MMap(const Program& p) { this->s.reset(new S((size_t)p.knob("max_items", 4), (size_t)p.knob("load_factor", 1))); } };
 template <class S> void split_probes(Ctx& c, S& s) { auto const& st = s.statistics(); c.probe("split_bucket_inits", (long)st.m_nInitBucketRecursive.get() + (long)st.m_nInitBucketContention.get()); c.probe("split_buckets_created", (long)st.m_nBucketCount.get()); c.probe("split_bucket_init_contention", (long)st.m_nInitBucketContention.get()); }
-template <class S> struct SSet : NogcSetA<S, C_nogc> { explicit SSet(const Program& p) { this->s.reset(new S((size_t)p.knob("item_count", 2), (size_t)p.knob("load_factor", 1))); } void probes(Ctx& c) { split_probes(c, *this->s); } };
-template <class S> struct SMap : NogcMapA<S, C_nogc> { explicit SMap(const Program& p) { this->s.reset(new S((size_t)p.knob("item_count", 2), (size_t)p.knob("load_factor", 1))); } void probes(Ctx& c) { split_probes(c, *this->s); } };
+template <class S> struct SSet : NogcSetA<S, C_nogc> { explicit SSet(const Program& p) { this->s.reset(new S((size_t)p.knob("item_count", 2), (size_t)p.knob("load_factor", 1))); } bool consistent(std::string& why) { std::vector<long> ks; this->traverse(ks); return split_order_ok(ks, why); } void probes(Ctx& c) { split_probes(c, *this->s); } };
+template <class S> struct SMap : NogcMapA<S, C_nogc> { explicit SMap(const Program& p) { this->s.reset(new S((size_t)p.knob("item_count", 2), (size_t)p.knob("load_factor", 1))); } bool consistent(std::string& why) { std::vector<long> ks; this->traverse(ks); return split_order_ok(ks, why); } void probes(Ctx& c) { split_probes(c, *this->s); } };
 void gen_m(Rng& r, Program& p, int tier, const std::string&) { GenCfg g; g.caps = CAPS_NOGC; g.hash_modes = 4; g.nkeys_hot = 6; g.nkeys_cold = 2; g.max_ops = 6; gen_program(r, p, tier, g); p.set("max_items", r.pick({1, 2, 4, 8})); p.set("load_factor", r.pick({1, 1, 2})); }
 void gen_s(Rng& r, Program& p, int tier, const std::string&) { GenCfg g; g.caps = CAPS_NOGC; g.hash_modes = 4; g.nkeys_hot = 6; g.nkeys_cold = 2; g.max_ops = 6; gen_program(r, p, tier, g); p.set("item_count", r.pick({2, 2, 4})); p.set("load_factor", 1); }
 #define COMPN(f) "real: " f " + the nogc ordered list (insert-only); simulated: scheduler, weak-CAS failures, stalls, late threads, degenerate hash functions; oracle: linearizability vs key->instance map, quiescent find, exact-once traversal, size()"
